@@ -19,7 +19,8 @@ def convertSigned (w n : Nat) (v : Int) : List Nat := ofNat w (nrBlocks w n) (of
 /-- `convert_unsigned(uint64)` -/
 def convertUnsigned (w n : Nat) (v : Nat) : List Nat := ofNat w (nrBlocks w n) ((v % 2 ^ 64) % 2 ^ n)
 
-/-- `operator+=` (integer_impl.hpp:275-305) -/
+/-- `operator+=` (integer_impl.hpp:275-314): single-block sum, or the carry chain — on `uint64_t` blocks the branch of `addLoop`
+    that recovers the carry from the wrap-around of the 64-bit additions -/
 def add (w n : Nat) (a b : List Nat) : List Nat :=
   if nrBlocks w n = 1 then maskMSU w n [(blk a 0 + blk b 0) % 2 ^ w]
   else maskMSU w n (addLoop w (w == 64) 0 a b)
@@ -99,10 +100,11 @@ def shlPos (w n : Nat) (a : List Nat) (s : Nat) : List Nat :=
     if s ≥ w && s1 == 0 then maskMSU w n a1
     else maskMSU w n (shlBits w s1 0 a1)
 
-/-- `operator>>=` for a positive count (integer_impl.hpp:500-574). A count `>= nbits` saturates to the sign fill:
-    `negative = sign(); setzero(); if (negative) for (i < nbits) setbit(i);` (repaired in 11c577e, was defect D8) -/
+/-- `operator>>=` for a positive count (integer_impl.hpp:516-585): `if (bitsToShift >= nbits) { setzero(); return *this; }` as it is —
+    a negative value becomes 0, not −1 (defect D8, known finding `integer.shr.count_ge_nbits_negative`; the repair 11c577e was
+    withdrawn because the library's own test static/integer/binary/logic/shift_right.cpp expects `maxneg >> nbits == 0`) -/
 def shrPos (w n : Nat) (a : List Nat) (s : Nat) : List Nat :=
-  if s ≥ n then (if sign w n a then setRange w (zeros a.length) 0 n true else zeros a.length)
+  if s ≥ n then zeros a.length
   else
     let signext := sign w n a
     let bs := if s ≥ w then s / w else 0
@@ -153,16 +155,13 @@ def idiv (w n : Nat) (a b : List Nat) : List Nat × List Nat :=
       let r := if isneg w n a then resize w n N (neg w N acc) else resize w n N acc
       (q, r)
 
-/-- `operator/=`, `operator%=`: native fast path for the exact-fit single block, `idiv` otherwise.
-    `none` = the native division traps (most negative / −1 at 32 and 64 bits). -/
-def divrem (w n : Nat) (a b : List Nat) (rem : Bool) : Option (List Nat) :=
-  if n = w then
-    match BB.nativeDiv w (blk a 0) (blk b 0) rem with
-    | none => none
-    | some q => some [q &&& msuMask w n]
+/-- `operator/=`, `operator%=`: native fast path for the exact-fit single block (`BB.nativeDiv`: a divisor −1 negates in the
+    block type instead of dividing, so most negative / −1 wraps), `idiv` otherwise. -/
+def divrem (w n : Nat) (a b : List Nat) (rem : Bool) : List Nat :=
+  if n = w then [BB.nativeDiv w (blk a 0) (blk b 0) rem &&& msuMask w n]
   else
     let (q, r) := idiv w n a b
-    some (if rem then r else q)
+    if rem then r else q
 
 /-- `to_integer<long long>()` as a 64-bit pattern -/
 def toI64 (w n : Nat) (a : List Nat) : Nat :=
